@@ -1,5 +1,5 @@
 From Coq Require Import ZArith Bool List.
-From KD Require Import Model.Values Model.Validate Model.Perm Model.Glob Model.Broker Model.BrokerRun Proofs.Broker Properties.C16.
+From KD Require Import Model.Values Model.Validate Model.Perm Model.Glob Model.Broker Model.BrokerRun Proofs.Broker Proofs.Interleave Properties.C16.
 Open Scope Z_scope.
 Check c16_bijection_inv : forall h,
   Z.of_nat (length h) < 2147483647 ->
@@ -19,3 +19,7 @@ Check c16_idempotent : forall db p now clock name dt ct et mn mx al id,
   add_entry db p now clock name dt ct et mn mx al = (db, inl id).
 Check c16_refusal_consumes_nothing : forall db p now clock name dt ct et mn mx al db' e,
   add_entry db p now clock name dt ct et mn mx al = (db', inr e) -> db' = db.
+Check c16_concurrent_distinct : forall (regs : list (state -> state)) st0 ts st,
+  (forall f, In f regs -> exists p name dt ct et mn mx al, f = reg_section p name dt ct et mn mx al) ->
+  db_inv (st_db st0) -> next_id (st_db st0) + Z.of_nat (length regs) < 2147483647 ->
+  ireach state (map (fun f => [f]) regs, st0) (ts, st) -> db_inv (st_db st).
